@@ -161,6 +161,9 @@ pub fn rec_observe(args: &Args) {
                     if r.chance(2, 3) {
                         mid = mid.wrapping_add(1);
                     }
+                    if r.chance(1, 6) {
+                        mid = *r.pick(&[0u16, 1, 0xFF, 0x100, 0x7FFF, 0x8000, 0xFFFE, 0xFFFF]);
+                    }
                     let p = if r.chance(1, 10) { "never".to_string() } else { paths[pi].1.clone() };
                     ev(&mut out, &mut s, json!({"op": "changed", "p": p, "mid": mid, "con": r.chance(2, 3)}), &keys)
                 }
